@@ -153,17 +153,30 @@ func runProperty(repo, verif, prop, tier, only string, seed uint64, nj int, skip
 		wall = 60 * time.Minute
 	}
 	type job struct {
-		l *Lemma
-		h string
+		l             *Lemma
+		h             string
+		shard, shards int
 	}
 	var jl []job
 	for _, l := range lemmas {
 		for _, h := range l.Harnesses {
+			// "VH_name*8" = explore the harness in 8 independent shards (the harness splits on vShardIdx)
+			shards := 0
+			if i := strings.Index(h, "*"); i >= 0 {
+				shards, _ = strconv.Atoi(h[i+1:])
+				h = h[:i]
+			}
 			if ld.harnesses[l.Pkg][h] == nil {
 				fmt.Printf("STALE property=%s harness %s/%s missing\n", prop, l.Pkg, h)
 				return 2
 			}
-			jl = append(jl, job{l, h})
+			if shards <= 1 {
+				jl = append(jl, job{l, h, 0, 0})
+				continue
+			}
+			for k := 0; k < shards; k++ {
+				jl = append(jl, job{l, h, k, shards})
+			}
 		}
 	}
 	stats := &SolverStats{}
@@ -176,8 +189,11 @@ func runProperty(repo, verif, prop, tier, only string, seed uint64, nj int, skip
 			defer wg.Done()
 			sem <- struct{}{}
 			defer func() { <-sem }()
-			opt := RunOpts{CapMs: capMs, Wall: wall, Diff: tier == "thorough", Thorough: tier == "thorough"}
+			opt := RunOpts{CapMs: capMs, Wall: wall, Diff: tier == "thorough", Thorough: tier == "thorough", Shard: j.shard, Shards: j.shards}
 			res := RunHarness(ld, j.l.Pkg, j.h, opt, stats)
+			if j.shards > 1 {
+				res.Shard = fmt.Sprintf("%d/%d", j.shard, j.shards)
+			}
 			results[i] = &jobResult{lemma: j.l, res: res}
 		}(i, j)
 	}
@@ -200,7 +216,7 @@ func runProperty(repo, verif, prop, tier, only string, seed uint64, nj int, skip
 	if !skipNative {
 		byPkg := map[string][]*jobResult{}
 		for _, jr := range results {
-			if !jr.lemma.NoNative {
+			if !jr.lemma.NoNative && (jr.res.Shard == "" || strings.HasPrefix(jr.res.Shard, "0/")) {
 				byPkg[jr.lemma.Pkg] = append(byPkg[jr.lemma.Pkg], jr)
 			}
 		}
@@ -343,8 +359,12 @@ func runProperty(repo, verif, prop, tier, only string, seed uint64, nj int, skip
 			outLines = append(outLines, fmt.Sprintf("ENGINE-MISMATCH property=%s %s", prop, m))
 		}
 	}
+	seenLine := map[string]bool{}
 	for _, l := range outLines {
-		fmt.Println(l)
+		if !seenLine[l] {
+			fmt.Println(l)
+		}
+		seenLine[l] = true
 	}
 	writeEvidence(verif, prop, tier, seed, lf, results, stats, tvTotal, tvBad, violations, knownHits, sampleViol, loadS, time.Since(t0).Seconds(), exit, nSeeds)
 	fmt.Printf("property=%s tier=%s lemmas=%d harnesses=%d exit=%d wall=%.1fs\n", prop, tier, len(lemmas), len(results), exit, time.Since(t0).Seconds())
@@ -603,7 +623,7 @@ func writeEvidence(verif, prop, tier string, seed uint64, lf *LemmaFile, results
 			twin = "NOT violated: harness vacuous"
 		}
 		lemmas = append(lemmas, map[string]interface{}{
-			"lemma": jr.lemma.Name, "harness": r.Name, "package": r.Pkg, "bounds": bounds, "cuts_and_stubs": jr.lemma.Cuts,
+			"lemma": jr.lemma.Name, "harness": r.Name, "shard": r.Shard, "package": r.Pkg, "bounds": bounds, "cuts_and_stubs": jr.lemma.Cuts,
 			"functions_encoded": fns, "paths": r.Paths, "ssa_steps": r.Steps, "forks": r.Forks, "path_ends": r.Ended,
 			"queries": map[string]interface{}{"total": r.Solver.Queries, "unsat": r.Solver.Unsat, "sat": r.Solver.Sat, "unknown": r.Solver.Unknown, "errors": r.Solver.Errors, "cache_hits": r.Solver.CacheHits, "by_solver": r.Solver.BySolver},
 			"solver_s": round1(r.Solver.TimeS), "solver_max_query_s": round1(r.Solver.MaxS), "wall_s": round1(r.WallS),
